@@ -32,12 +32,23 @@ class ExecGen:
 
     def pair(self):
         r = self.rng
-        # prefer pairs whose proofs verify (c1, c2 with the always-true rule)
+        # mostly pairs across chains; sometimes two services of one chain, sometimes the self pair (s, s)
+        k = r.random()
+        if k < 0.06:
+            f = r.choice(SERVICES)
+            self.tags.add("pair:self")
+            return f, f
         while True:
             f = r.choice(SERVICES)
             t = r.choice(SERVICES)
-            if f.split(":")[0] != t.split(":")[0]:
-                return f, t
+            if f == t:
+                continue
+            same_chain = f.split(":")[0] == t.split(":")[0]
+            if same_chain and k > 0.16:
+                continue
+            if same_chain:
+                self.tags.add("pair:same-chain")
+            return f, t
 
     def signer(self, svc):
         r = self.rng
